@@ -230,7 +230,7 @@ func rulesC01(c *Ctx) {
 			if twn {
 				failTarget = f
 			}
-			okr, p2 := g.MustPass(failTarget, g.Exits, func(v int) bool {
+			okr, p2 := g.MustPassIncl(failTarget, g.Exits, func(v int) bool {
 				n := g.Node(v)
 				if n == nil {
 					return false
